@@ -123,6 +123,18 @@ CLAIMS = {
         "exchanged, fetching / validating / writing the selected rows, edges and deletion records are outside (SQL and network). That SELECT ... WHERE id IN (...) "
         "returns exactly the stored rows with those ids is assumed.",
    design='DESIGN.md §3 C03'),
+ 'C11': dict(
+   level='model_checking',
+   text="Fetch-selection kernel only. Whether a row announced by a peer is fetched and stored again is decided by Node::filter_existing and by nothing after it. The real "
+        "function is executed from MIR with a symbolic SQL cursor serving two tables by name - _node (stored rows) and _node_deletion_log (tombstones; columns are read "
+        "from the SQL text the function prepares, SQL over any other table is reported as not modelled) - on the state a local deletion leaves: the row is gone, its "
+        "tombstone with a symbolic version date is in the log; alone or together with an announced unrelated row (stored or unknown). z3 decides whether a version that "
+        "is not newer than the deleted one can be requested. Counterexamples and samples are replayed through the public API of a real database: mutate, delete, "
+        "filter_existing_node, add_nodes, query.",
+   note="On the unchanged tree the obligation FAILS for every input (the function never reads the deletion log): recorded in KNOWN_FINDINGS.json with the reason it "
+        "is not repaired here, printed as KNOWN-FINDING. A repair that consults the log is decided by the same check (the cursor already serves that table); a partial "
+        "repair (same version only) shows as a new violation (signature ...:older). Outside: convergence of deletion records across peers, edges, the pull protocol.",
+   design='DESIGN.md §3 C11'),
  'C19': dict(
    level='model_checking',
    text="Handshake and invitation-consumption kernels. (a) PeerManager::invite_accepted (an async fn over six database awaits) is executed from MIR to completion in one "
@@ -177,7 +189,6 @@ CLAIMS = {
 
 NA = {
  'C05': "the meaning of generated SQL is SQLite's; no implementation-side evaluator to encode",
- 'C11': "needs several replicas, fetch-selection SQL and the async pull; the Rust kernel has no tombstone input",
  'C13': "crash points / WAL durability / rollback are SQLite behaviour behind FFI; rusqlite::Connection cannot be made symbolic",
  'C16': "a schedule property of reader pool + actor + writer threads over SQLite; Kani/mirsym do not handle concurrency",
  'C17': "the index is SQLite FTS5; extract_json alone says nothing about matches",
